@@ -1,0 +1,62 @@
+//go:build verif
+
+// Contracts for package strings, checked by /verif/govc (comment-only file; no code).
+package strings
+
+//@ define isHexChar(c int) bool := (c >= '0' && c <= '9') || (c >= 'a' && c <= 'f') || (c >= 'A' && c <= 'F')
+//@ define hexCharVal(c int) int := ite(c <= '9', c - '0', ite(c >= 'a', c - 'a' + 10, c - 'A' + 10))
+
+//@ func ValidHex props C16,C07
+//@   ensures result == isHexChar(x)
+
+// X2c: needs two bytes; on two hex digits the value is 16*hi + lo.
+//@ func X2c props C16,C07
+//@   requires len(what) >= 2
+//@   ensures isHexChar(what[0]) && isHexChar(what[1]) ==> result == 16*hexCharVal(what[0]) + hexCharVal(what[1])
+
+// MaybeRemoveQuotes: strips exactly one matching pair of enclosing quotes (" or '), otherwise identity.
+//@ define hasQuotePair(s string) bool := len(s) >= 2 && s[0] == s[len(s)-1] && (s[0] == '"' || s[0] == '\'')
+//@ func MaybeRemoveQuotes props C16,C07
+//@   ensures hasQuotePair(s) ==> result == s[1:len(s)-1]
+//@   ensures !hasQuotePair(s) ==> result == s
+
+// unq(s, i) is the output after decoding exactly the tokens that end at position i:
+// `\"` -> `"`, any other byte (including a backslash not followed by a quote) copied. One pass.
+//@ spec unq(s string, i int) string
+//@ axiom unq0: forall s string :: unq(s, 0) == ""
+//@ axiom unqEsc: forall s string, i int :: 0 <= i && i+1 < len(s) && s[i] == '\\' && s[i+1] == '"' ==> unq(s, i+2) == unq(s, i) + unit('"')
+//@ axiom unqLit: forall s string, i int :: 0 <= i && i < len(s) && !(s[i] == '\\' && i+1 < len(s) && s[i+1] == '"') ==> unq(s, i+1) == unq(s, i) + unit(s[i])
+
+// A string without any backslash contains no escape and is returned unchanged (the code's fast path); that this
+// coincides with unq(s, len(s)) is a lemma about unq (induction over positions), not about the code.
+//@ define hasBackslash(s string) bool := exists k int :: 0 <= k && k < len(s) && s[k] == '\\'
+//@ func UnescapeQuotedString props C16,C07
+//@   ensures hasBackslash(s) ==> result == unq(s, len(s))
+//@   ensures !hasBackslash(s) ==> result == s
+//@   loop 1 vars i
+//@     invariant 0 <= i && i <= len(s)
+//@     invariant sb.content == unq(s, i)
+//@     decreases len(s) - i
+
+//@ func InSlice props C16,C07
+//@   ensures result <==> (exists k int :: 0 <= k && k < len(list) && list[k] == a)
+//@   loop 1
+//@     invariant -1 <= rangeindex && rangeindex < len(list)
+//@     invariant forall k int :: 0 <= k && k <= rangeindex ==> list[k] != a
+
+// bsRun(s, i): number of consecutive backslashes ending at position i (inclusive), scanning leftwards.
+//@ spec bsRun(s string, i int) int
+//@ axiom bsRunNeg: forall s string, i int :: i < 0 ==> bsRun(s, i) == 0
+//@ axiom bsRunStop: forall s string, i int :: 0 <= i && i < len(s) && s[i] != '\\' ==> bsRun(s, i) == 0
+//@ axiom bsRunStep: forall s string, i int :: 0 <= i && i < len(s) && s[i] == '\\' ==> bsRun(s, i) == bsRun(s, i-1) + 1
+
+//@ define regexForm(s string) bool := len(s) >= 2 && s[0] == '/' && s[len(s)-1] == '/' && (len(s) == 2 || bsRun(s, len(s)-2) % 2 == 0)
+//@ func HasRegex props C16,C07
+//@   ensures result0 == regexForm(s)
+//@   ensures result0 ==> result1 == s[1:len(s)-1]
+//@   ensures !result0 ==> result1 == s
+//@   loop 1 vars i
+//@     invariant -1 <= i && i <= lastIdx - 1
+//@     invariant backslashes >= 0
+//@     invariant bsRun(s, lastIdx-1) == backslashes + bsRun(s, i)
+//@     decreases i + 1
